@@ -714,6 +714,9 @@ func (w *AWorld) drainMode(extra func() bool, clock bool) string {
 			}
 		}
 		moved := extra != nil && extra()
+		if w.netDeliverOne() {
+			moved = true
+		}
 		if w.progress > before || w.sched.Picks > picksBefore || started || moved || yielded > 0 {
 			fruitless = 0
 			continue
@@ -746,7 +749,17 @@ func (w *AWorld) drainMode(extra func() bool, clock bool) string {
 	if len(stuck) > 6 {
 		stuck = append(stuck[:6], fmt.Sprintf("... and %d more", nstuck-6))
 	}
-	return fmt.Sprintf("%d call(s) never returned although the workload stopped, every service loop was given a turn and the clock advanced by hours: %s\nblocked goroutines in the agent:\n%s", nstuck, strings.Join(stuck, "; "), blockedRepoGoroutines())
+	disp := ""
+	for _, a := range w.agents {
+		state := "is NOT back at its select (blocked while handling a request)"
+		for _, p := range w.sched.All() {
+			if strings.HasPrefix(p.Name, a.name+".store.go") && p.N > 0 {
+				state = "is parked at its select (idle)"
+			}
+		}
+		disp += fmt.Sprintf("dispatcher of %s %s; ", a.name, state)
+	}
+	return fmt.Sprintf("%d call(s) never returned although the workload stopped, every service loop was given a turn and the clock advanced by hours: %s\n%s\nblocked goroutines in the agent:\n%s", nstuck, strings.Join(stuck, "; "), disp, blockedRepoGoroutines())
 }
 
 // blockedRepoGoroutines summarises the goroutines that are blocked inside code of the
@@ -821,4 +834,33 @@ func (w *AWorld) baseOf(idx, step int) string {
 		}
 	}
 	return w.agents[idx].cfg.BaseDir
+}
+
+// netDeliverOne delivers one scheduler-chosen fragment (or the close) of a manually delivered
+// connection, if any is waiting. Byte delivery is a scheduling decision like any other.
+func (w *AWorld) netDeliverOne() bool {
+	ps := w.nw.ManualPending()
+	if len(ps) == 0 {
+		return false
+	}
+	p := ps[w.r.Choose("net-conn", len(ps))]
+	c2s, _, cfin, _ := p.Pending()
+	if c2s > 0 {
+		max := c2s
+		if max > 9 {
+			max = 9
+		}
+		k := 1 + w.r.Choose("net-bytes", max)
+		if w.r.Choose("net-all", 5) == 0 {
+			k = c2s
+		}
+		p.Deliver(true, k)
+		w.r.Count("fault:fragmented-delivery")
+		w.r.Logf("  net: conn%d delivers %d of %d bytes to the server", p.ID, k, c2s)
+	} else if cfin {
+		p.DeliverFin(true)
+	}
+	synctest.Wait()
+	w.observe()
+	return true
 }
